@@ -35,13 +35,14 @@ type PartySpec struct {
 }
 
 type StepSpec struct {
-	Op      string `json:"op"`                 // rinit, rresp, rdata, tun, kick
+	Op      string `json:"op"`                 // rinit, rresp, rdata, tun, kick, restart, cookie
 	Party   int    `json:"party"`              // acting ref party (rinit, rresp, rdata) or addressed peer (tun, kick)
 	RespKey string `json:"resp_key,omitempty"` // rinit: "" = the device's key, "other" = another key S'
 	MacKey  string `json:"mac_key,omitempty"`  // rinit: "" = the device's key, "other" = the other key
 	Ts      string `json:"ts,omitempty"`       // rinit: "" = newer, "same", "old"
 	Of      int    `json:"of"`                 // rresp: the peer whose device initiation is answered
 	Which   string `json:"which,omitempty"`    // rresp / rdata: "" = latest, "older"
+	Kind    string `json:"kind,omitempty"`     // cookie: "authentic", "garbage", "wrongkey", "wrongad", "oldad"
 }
 
 type Scenario struct {
@@ -105,11 +106,21 @@ type dinit struct {
 	msg []byte
 }
 
+// dmsg is a handshake message the device sent (initiation or response).
+type dmsg struct {
+	xid    int
+	to     *party
+	sender uint32
+	mac1   [16]byte
+}
+
 type runner struct {
 	w        *cosim.World
 	parties  []*party
 	sessions []*sess // creation order
 	dinits   []*dinit
+	dmsgs    []*dmsg
+	cookies  [][]byte // cookies issued by ref parties
 	otherPub ref.Key
 	xid      int
 	refEph   int
@@ -219,6 +230,25 @@ func (r *runner) mac1Owner(msg []byte) int {
 	return 0
 }
 
+// mac2Class: 1 = all zero, 2 = valid under a cookie some party issued, 0 = anything else.
+func (r *runner) mac2Class(msg []byte) uint64 {
+	if ref.Mac2IsZero(msg) {
+		return 1
+	}
+	for _, c := range r.cookies {
+		if ref.CheckMac2(msg, c) {
+			return 2
+		}
+	}
+	return 0
+}
+
+func (r *runner) noteMsg(xid int, to *party, d []byte) {
+	m := &dmsg{xid: xid, to: to, sender: binary.LittleEndian.Uint32(d[4:8])}
+	copy(m.mac1[:], d[len(d)-32:len(d)-16])
+	r.dmsgs = append(r.dmsgs, m)
+}
+
 func b2u(b bool) uint64 {
 	if b {
 		return 1
@@ -241,11 +271,11 @@ func (r *runner) describe(s sim.Sent, so *StepObs) []uint64 {
 					break
 				}
 			}
-			so.raws = append(so.raws, Raw{Bytes: d, Fields: []uint64{uint64(tw), uint64(binary.LittleEndian.Uint32(d[4:8])), 0}, Eph: d[8:40]})
-			return []uint64{1, to, uint64(len(d)), uint64(binary.LittleEndian.Uint32(d[4:8])), uint64(r.mac1Owner(d)), b2u(ref.Mac2IsZero(d)), uint64(opener)}
+			so.raws = append(so.raws, Raw{Bytes: d, Fields: []uint64{uint64(tw), uint64(binary.LittleEndian.Uint32(d[4:8])), 0, r.mac2Class(d)}, Eph: d[8:40]})
+			return []uint64{1, to, uint64(len(d)), uint64(binary.LittleEndian.Uint32(d[4:8])), uint64(r.mac1Owner(d)), r.mac2Class(d), uint64(opener)}
 		case tw == ref.TypeResponse && len(d) == ref.ResponseSize:
-			so.raws = append(so.raws, Raw{Bytes: d, Fields: []uint64{uint64(tw), uint64(binary.LittleEndian.Uint32(d[4:8])), uint64(binary.LittleEndian.Uint32(d[8:12]))}, Eph: d[12:44]})
-			return []uint64{2, to, uint64(len(d)), uint64(binary.LittleEndian.Uint32(d[4:8])), uint64(binary.LittleEndian.Uint32(d[8:12])), uint64(r.mac1Owner(d)), b2u(ref.Mac2IsZero(d))}
+			so.raws = append(so.raws, Raw{Bytes: d, Fields: []uint64{uint64(tw), uint64(binary.LittleEndian.Uint32(d[4:8])), uint64(binary.LittleEndian.Uint32(d[8:12])), r.mac2Class(d)}, Eph: d[12:44]})
+			return []uint64{2, to, uint64(len(d)), uint64(binary.LittleEndian.Uint32(d[4:8])), uint64(binary.LittleEndian.Uint32(d[8:12])), uint64(r.mac1Owner(d)), r.mac2Class(d)}
 		case tw == ref.TypeTransport && len(d) >= 32:
 			opener := 0
 			ka := false
@@ -362,6 +392,7 @@ func (r *runner) noteInits(out cosim.Out, xid int) (e, ts int, idx uint32) {
 				}
 			}
 			r.dinits = append(r.dinits, &dinit{xid: xid, to: to, msg: append([]byte{}, d...)})
+			r.noteMsg(xid, to, d)
 			return
 		}
 	}
@@ -416,6 +447,7 @@ func (r *runner) step(si int, sp StepSpec) {
 			if len(s.Data) == ref.ResponseSize && s.Data[0] == ref.TypeResponse {
 				r.devEph++
 				er, ir = r.devEph, binary.LittleEndian.Uint32(s.Data[4:8])
+				r.noteMsg(xid, p, s.Data)
 				if se, err := st.ConsumeResponse(s.Data); err == nil {
 					so.Ref = 1
 					r.addSession(p, xid, se)
@@ -517,6 +549,64 @@ func (r *runner) step(si int, sp StepSpec) {
 				r.c.DataOK++
 			}
 		}
+	case "restart":
+		// Device.Down(); Device.Up(): every peer is stopped (ZeroAndFlushAll -> Handshake.Clear) and started
+		if err := r.w.Dev.Down(); err != nil {
+			return
+		}
+		if err := r.w.Dev.Up(); err != nil {
+			return
+		}
+		out := r.w.Take()
+		so.Event = "restart"
+		r.observe(out, &so, nil)
+	case "cookie":
+		if sp.Of < 0 || sp.Of >= len(r.parties) {
+			return
+		}
+		of := r.parties[sp.Of]
+		var msgs []*dmsg
+		for _, m := range r.dmsgs {
+			if m.to == of {
+				msgs = append(msgs, m)
+			}
+		}
+		if len(msgs) == 0 {
+			return
+		}
+		last := msgs[len(msgs)-1]
+		keyPub, keyKid := of.rp.Pub, of.kid
+		ad, adx := last.mac1, last.xid
+		garbage := 0
+		switch sp.Kind {
+		case "wrongkey":
+			keyPub, keyKid = r.otherPub, kidOther
+		case "wrongad":
+			r.rng.Read(ad[:])
+			adx = 0
+		case "oldad":
+			if len(msgs) >= 2 {
+				ad, adx = msgs[len(msgs)-2].mac1, msgs[len(msgs)-2].xid
+			} else {
+				r.rng.Read(ad[:])
+				adx = 0
+			}
+		case "garbage":
+			garbage = 1
+		}
+		var nonce [24]byte
+		var cookie [16]byte
+		r.rng.Read(nonce[:])
+		r.rng.Read(cookie[:])
+		r.cookies = append(r.cookies, append([]byte{}, cookie[:]...))
+		cid := len(r.cookies)
+		msg := ref.CreateCookieReply(keyPub, last.sender, nonce, cookie, ad)
+		if garbage == 1 {
+			r.rng.Read(msg[8:])
+		}
+		out := r.w.Inject(p.rp.Addr, msg)
+		so.Event = fmt.Sprintf("cookie %d %d %d %d %d", keyKid, last.xid, adx, garbage, cid)
+		r.observe(out, &so, nil)
 	default:
 		return
 	}
@@ -574,8 +664,13 @@ func anyParty(r *rand.Rand, k int) PartySpec {
 func st(op string, party int) StepSpec { return StepSpec{Op: op, Party: party, Of: party} }
 
 func genScenario(r *rand.Rand, k int) Scenario {
-	tmpl := k % 11
-	main := anyParty(r, k/11+k)
+	tmpl := k % 16
+	main := anyParty(r, k/16+k)
+	pskParty := func() PartySpec { // a configured party whose device-side psk is NOT zero, or a mismatching one
+		l := []PartySpec{{"ok", "rand"}, {"pskmis", "rand"}, {"pskmis", "refzero"}, {"ok", "rand"}, {"pskmis", "zero"}, {"ok", "zero"}}
+		return l[(k/16)%len(l)]
+	}
+	forged := []string{"garbage", "wrongkey", "wrongad", "oldad"}
 	switch tmpl {
 	case 0: // ref initiates, data both ways
 		return Scenario{Parties: []PartySpec{main, pick(r, okKinds)}, Gen: "ref-initiates",
@@ -638,6 +733,28 @@ func genScenario(r *rand.Rand, k int) Scenario {
 		}
 		steps = append(steps, st("tun", 0), st("tun", 1))
 		return Scenario{Parties: ps, Gen: "identities", Steps: steps}
+	case 10: // restart between two ref-initiated handshakes: the psk must survive Handshake.Clear
+		return Scenario{Parties: []PartySpec{pskParty(), pick(r, okKinds)}, Gen: "restart-ref-initiates",
+			Steps: []StepSpec{st("rinit", 0), st("rdata", 0), st("restart", 0), st("rdata", 0), st("rinit", 0), st("rdata", 0), st("tun", 0)}}
+	case 11: // restart, then the device initiates
+		return Scenario{Parties: []PartySpec{pskParty()}, Gen: "restart-device-initiates",
+			Steps: []StepSpec{st("tun", 0), st("rresp", 0), st("restart", 0), st("tun", 0), st("rresp", 0), st("rdata", 0), st("tun", 0),
+				st("restart", 0), st("rinit", 0), st("rdata", 0)}}
+	case 12: // an unauthentic cookie reply before a retransmitted initiation and before a response
+		p := pick(r, okKinds)
+		return Scenario{Parties: []PartySpec{p}, Gen: "forged-cookie-initiator",
+			Steps: []StepSpec{st("kick", 0), {Op: "cookie", Party: 0, Of: 0, Kind: forged[(k/16)%4]}, st("kick", 0),
+				{Op: "cookie", Party: 0, Of: 0, Kind: forged[r.Intn(4)]}, st("rresp", 0), st("rdata", 0), st("rinit", 0), st("kick", 0)}}
+	case 13: // the same with the device as responder (receiver = index of its response = keypair index)
+		p := pick(r, okKinds)
+		return Scenario{Parties: []PartySpec{p, pick(r, outKinds)}, Gen: "forged-cookie-responder",
+			Steps: []StepSpec{st("rinit", 0), {Op: "cookie", Party: 1, Of: 0, Kind: forged[(k/16)%4]}, st("rinit", 0),
+				{Op: "cookie", Party: 0, Of: 0, Kind: forged[r.Intn(4)]}, st("kick", 0), st("rdata", 0), st("rinit", 0)}}
+	case 14: // an authentic cookie reply: MAC2 is then the MAC under that cookie, also across a restart
+		p := pick(r, okKinds)
+		return Scenario{Parties: []PartySpec{p}, Gen: "authentic-cookie",
+			Steps: []StepSpec{st("kick", 0), {Op: "cookie", Party: 0, Of: 0, Kind: "authentic"}, st("kick", 0), st("restart", 0),
+				st("kick", 0), st("rresp", 0), st("rinit", 0), st("rdata", 0)}}
 	default: // several peers, random interleaving
 		n := 2 + r.Intn(3)
 		var ps []PartySpec
@@ -675,10 +792,18 @@ func genScenario(r *rand.Rand, k int) Scenario {
 				if r.Intn(4) == 0 {
 					s.Which = "older"
 				}
-			case x < 88:
+			case x < 82:
 				s.Op = "tun"
-			default:
+			case x < 90:
 				s.Op = "kick"
+			case x < 94:
+				s.Op = "restart"
+			default:
+				s.Op = "cookie"
+				s.Kind = []string{"authentic", "garbage", "wrongkey", "wrongad", "oldad"}[r.Intn(5)]
+				if r.Intn(4) == 0 {
+					s.Of = r.Intn(n)
+				}
 			}
 			steps = append(steps, s)
 		}
@@ -786,7 +911,7 @@ func writeShard(path string, cases []*Case) error {
 
 func main() {
 	seed := flag.Int64("seed", 1, "PRNG seed")
-	n := flag.Int("n", 44, "number of scenarios")
+	n := flag.Int("n", 64, "number of scenarios")
 	shards := flag.Int("shards", 8, "case files")
 	out := flag.String("out", "out/C03", "output directory")
 	replayIn := flag.String("replay", "", "JSON file with scenarios (parties + steps) to run")
